@@ -12,7 +12,7 @@ from sa.props._lib_d import (call_nodes, calls_with, const_value_is, implied, lo
                              reach_under, self_assigns, slice_parts, succ_of, test_value, value_returned)
 from sa.props._lib_d import must_pass_under as _must_pass_under
 from sa.props._lib_d import undecided_tests as undecided_tests
-from sa.props._lib_d import Views
+from sa.props._lib_d import Views, written_names
 from sa.props._lib_d import MiniVM, VMError, VMRaise, VMStub, _NativeRaise, facts_at, resolve_locals
 from sa.source import AnalysisError
 
@@ -297,11 +297,25 @@ def _line_receiver(ctx):
     sp = split_nodes[0]
     st = g.node(sp).ast
     tg = st.targets[0]
-    ok = isinstance(tg, ast.Tuple) and len(tg.elts) == 2 and isinstance(tg.elts[0], ast.Name) and src(tg.elts[1]) == "self._buffer" \
-        and len(st.value.args) == 2 and src(st.value.args[0]) == "self.delimiter" and const_value_is(st.value.args[1], lambda x: x == 1)
-    ctx.check(ok, "line/split-shape", ctx.construct(q, st),
-              "the buffer is not split once at the first delimiter into (line, rest) with the rest stored back before the call-out")
-    lv = tg.elts[0].id if ok else "line"
+    once = len(st.value.args) == 2 and src(st.value.args[0]) == "self.delimiter" and const_value_is(st.value.args[1], lambda x: x == 1)
+    pair = isinstance(tg, ast.Tuple) and len(tg.elts) == 2 and isinstance(tg.elts[0], ast.Name)
+    stored = pair and src(tg.elts[1]) == "self._buffer"
+    if pair and not stored and isinstance(tg.elts[1], ast.Name):
+        # (line, rest) unpacked into two locals: the rest must be stored back in _buffer on every way from the split to a call-out / the exit
+        rest = tg.elts[1].id
+        backs = [x.id for x in g.nodes if x.kind == "stmt" and g.reachable(x.id) and isinstance(x.ast, ast.Assign) and len(x.ast.targets) == 1
+                 and src(x.ast.targets[0]) == "self._buffer" and (src(x.ast.value) == rest or const_value_is(x.ast.value, lambda v: v == b""))]
+        named = [b for b in backs if src(g.node(b).ast.value) == rest]
+        w = g.must_pass(succ_of(g, sp, None), backs, to=[g.exit] + callouts) if succ_of(g, sp, None) else [sp]
+        rebound = any(rest in written_names(x.ast) for x in g.nodes if x.kind == "stmt" and x.id != sp and x.ast is not None)
+        stored = bool(named) and w is None and not rebound
+    if pair and (stored or isinstance(tg.elts[1], (ast.Name, ast.Attribute))):
+        ctx.check(bool(once and stored), "line/split-shape", ctx.construct(q, st),
+                  "the buffer is not split once at the first delimiter into (line, rest) with the rest stored back before the call-out")
+    else:
+        ctx.note("line/split-shape: the result of the split is not unpacked into (line, rest) (" + src(st)[:80] + "); which bytes are delivered and kept is "
+                 "decided by line/reference-framing and line/segmentation-invariant")
+    lv = tg.elts[0].id if pair else "line"
     after = succ_of(g, sp, None)
     r_cb = _thr(ctx, g, f, "line/complete-boundary", f"len({lv})")
     r_pb = _thr(ctx, g, f, "line/pending-boundary", "len(self._buffer)")
@@ -682,8 +696,19 @@ def _netstring(ctx):
         p = f.args.args[1].arg
         rz = _raises(g, "NetstringParseError")
         r_nl = _thr(ctx, g, f, "netstring/limit-boundary", "length")
+        # the digit-count pre-check may sit in this function (its helper written out in place): its limit is what _maxLengthSize() computes for M
+        digits = None
+        try:
+            fm_ = _F(ctx, B, "NetstringReceiver._maxLengthSize")
+            rm_ = [x for x in walk_local(fm_) if isinstance(x, ast.Return) and x.value is not None]
+            if len(rm_) == 1:
+                digits = peval(rm_[0].value, {"self.MAX_LENGTH": M})
+        except Exception:  # noqa: BLE001 - no such method / not evaluable: the call stays an open test
+            digits = None
         for L, ok_len in ((M - 1, True), (M, True), (M + 1, False)):
             facts = {p: str(L).encode(), "self.MAX_LENGTH": M}
+            if digits is not None:
+                facts["self._maxLengthSize()"] = digits
             c = q + f" | <length MAX_LENGTH{L - M:+d}>"
             dec = (g, facts, "length", None, ())
             R = reach_under(g, facts)
